@@ -112,6 +112,7 @@ func dialogueDevice(ds ...*Desc) *simDev {
 			sd.pendingHold = st.cmd.Hold
 			if st.cmd.Eager {
 				r.NoPrompt = true
+				r.Raw = []byte(st.cmd.Cont)
 				return r
 			}
 		} else {
@@ -174,6 +175,8 @@ type runner struct {
 	interim   []*regexp.Regexp // the slice passed with WithInterimPromptPattern in the current operation
 	// sharedEvs: event objects owned by the caller and re-used across sessions (kind shared)
 	sharedEvs []*channel.SendInteractiveEvent
+	// eagerSent: the texts of the eager sends since the last non-eager command
+	eagerSent string
 	dev       *simDev
 	gd        *generic.Driver
 	nd        *network.Driver
@@ -367,6 +370,18 @@ func (r *runner) plain(c Cmd, where string) *mon.Result {
 	r.obs["plain_return_checks"]++
 	if log[ws[1]].Delivered < log[ws[1]].Generated {
 		r.obs["plain_return_before_echo_delivered"]++
+	}
+	if c.Eager {
+		r.eagerSent += c.Text + "\n"
+	} else {
+		if r.eagerSent != "" {
+			r.obs["plain_commands_after_eager_sends"]++
+			if strings.Contains(r.eagerSent, c.Text) {
+				r.obs["plain_command_text_contained_in_preceding_eager_lines"]++
+				r.tag("terminator-after-eager-lines")
+			}
+		}
+		r.eagerSent = ""
 	}
 	if _, blanks := splitBlanks(c.Text); blanks != "" && !c.EchoStall {
 		r.obs["plain_commands_ending_in_blanks"]++
@@ -759,6 +774,13 @@ func (r *runner) runOp(d *Desc, callerComp []*regexp.Regexp) (v *mon.Result, non
 			r.obs["interactive_ops_with_interim_patterns"]++
 			if r.interim[0] == nil || r.interim[0].String() != d.InterimRe {
 				return r.bad("c12/caller-patterns-modified", "the caller's interim pattern slice was changed by the call"), false
+			}
+		}
+		if d.HiddenTwin != "" {
+			if n := strings.Count(string(r.conn.Stream()[log[ws[0]].Generated:]), d.HiddenTwin); n > 0 {
+				r.obs["dialogues_whose_hidden_input_text_also_occurs_in_the_dialogue"]++
+				r.obs["occurrences_of_hidden_input_text_in_dialogue"] += int64(n)
+				r.tag("hidden-input-text-also-elsewhere")
 			}
 		}
 		r.obs["dialogues"]++
